@@ -390,7 +390,7 @@ pub fn run(run: &'static Run) {
     run.rule(
         "server histories: from base 0 (a = 1 commit) or base 1 (a = 2 commits, b = side commit, annotated tag on the root, lightweight tag on the tip) every sequence of \
          {Commit on a, Branch (create/advance b with an old-dated commit), DelBranch b, Rewind a (forced replacement of the tip / new root), TagLw (move lightweight tag), TagAnn (re-create annotated tag)} \
-         up to depth 2 (quick: base 1, depth 1 for (follow-tags, v2) and (unforced+all-tags, v1), initial fetch only for (depth-1 shallow, v2) and (single-branch, v2); thorough: base 1 at depth 2 for (follow-tags v2/v1), (unforced+all-tags v1/v2), (shallow v2), (single-branch v1); base 0 at depth 1 for all 4 clients with alternating protocol); after the initial state and after EVERY operation the client fetches. Clients: `+refs/heads/*:refs/remotes/o/*` with tag following; `refs/heads/*:refs/remotes/o/*` (no force) with --tags; \
+         up to depth 2 (quick: base 1 at depth 1 for (follow-tags, v2) and (unforced+all-tags, v1), initial fetch only for (depth-1 shallow, v2) and (single-branch, v1); thorough: base 1 at depth 2 for all 4 clients x protocol 1 and 2, base 0 at depth 2 for all 4 clients with alternating protocol); after the initial state and after EVERY operation the client fetches. Clients: `+refs/heads/*:refs/remotes/o/*` with tag following; `refs/heads/*:refs/remotes/o/*` (no force) with --tags; \
          single branch `+refs/heads/a:..` with --no-tags; all heads --no-tags with depth 1; protocol.version 1 and 2. \
          a case = (base, client, protocol, first operation) and covers the whole subtree of continuations; non-trivial = every fetch in the subtree was compared with git fetch and at least one pack was received",
     );
@@ -415,15 +415,15 @@ pub fn run(run: &'static Run) {
                 }
             };
             if run.quick() {
-                for (client, proto, depth) in [(0u8, 2u8, 1u8), (1, 1, 1), (3, 2, 0), (2, 2, 0)] {
+                for (client, proto, depth) in [(0u8, 2u8, 1u8), (1, 1, 1), (3, 2, 0), (2, 1, 0)] {
                     subtree(1, client, proto, depth);
                 }
             } else {
-                for (client, proto) in [(0u8, 2u8), (1, 1), (3, 2), (0, 1), (1, 2), (2, 1)] {
+                for (client, proto) in [(0u8, 2u8), (1, 1), (3, 2), (2, 1), (0, 1), (1, 2), (3, 1), (2, 2)] {
                     subtree(1, client, proto, 2);
                 }
                 for client in 0..CLIENTS.len() as u8 {
-                    subtree(0, client, 2 - client % 2, 1);
+                    subtree(0, client, 2 - client % 2, 2);
                 }
             }
         },
